@@ -132,7 +132,10 @@ def gen_file_spec(rng, fidx, tagger):
             shape, wcs = [rng.randint(2, 6)], {}
         else:
             shape, wcs = [], {}
-        hdus.append(dict(kind=kind, shape=shape, wcs=wcs, uid=uid))
+        hdu = dict(kind=kind, shape=shape, wcs=wcs, uid=uid)
+        if kind == "img" and j > 0 and rng.random() < 0.3:
+            hdu["comp"] = True          # a tile-compressed image extension (astropy CompImageHDU): image data like any other
+        hdus.append(hdu)
     return hdus
 
 
@@ -164,7 +167,10 @@ def write_fits(path, spec):
                 hd["CDELT1" + s] = -0.01
                 hd["CDELT2" + s] = 0.01
             data = np.full(tuple(h["shape"]), float(h["uid"]), dtype=np.float32)
-            hdus.append(fits.PrimaryHDU(data, header=hd) if j == 0 else fits.ImageHDU(data, header=hd))
+            if h.get("comp") and j > 0:
+                hdus.append(fits.CompImageHDU(data, header=hd, compression_type="GZIP_1", quantize_level=0.0))
+            else:
+                hdus.append(fits.PrimaryHDU(data, header=hd) if j == 0 else fits.ImageHDU(data, header=hd))
         elif kind == "empty":
             hdus.append(fits.PrimaryHDU() if j == 0 else fits.ImageHDU())
         elif kind == "bintable":
